@@ -431,4 +431,79 @@ theorem C10_reports_keep_canceling (k : TaskKey) (ev : Status) (c : Cond)
     (wfProcessTaskEvent k ev c).2.st.status = .canceling ∨ (wfProcessTaskEvent k ev c).2.st.status = .canceled :=
   (wfProcessTaskEvent_canceling k ev).run c h
 
+/-! ### C02: the doors, on the state the implementation's queries see -/
+
+/-- what `wfProcessTaskEvent` leaves as the status is the table's answer for the summary of the
+    state queries, or `failed` when the unreachable-join check applied -/
+theorem wfProcessTaskEvent_status_cases (k : TaskKey) (ev : Status) (c : Cond) :
+    (wfProcessTaskEvent k ev c).2.st.status = c.st.status ∨
+    (∃ rem oc s', wfOnTaskEvent c.st.status ev rem c.st.hasActive oc = .ok s' ∧
+        oc = (taskEventSummary ev (hasNext c k false) (hasNext c k true) c.st.hasActive c.st.hasCanceling c.st.hasCanceled
+          c.st.hasPausing c.st.hasPaused c.st.hasStaged).2.2 ∧
+        ((wfProcessTaskEvent k ev c).2.st.status = s' ∨
+         ((wfProcessTaskEvent k ev c).2.st.status = .failed ∧ s' ≠ c.st.status ∧ wfUnreachCheck s' = true))) := by
+  unfold wfProcessTaskEvent
+  dsimp only
+  cases hw : wfOnTaskEvent c.st.status ev
+      (taskEventSummary ev (hasNext c k false) (hasNext c k true) c.st.hasActive c.st.hasCanceling c.st.hasCanceled
+        c.st.hasPausing c.st.hasPaused c.st.hasStaged).1
+      (taskEventSummary ev (hasNext c k false) (hasNext c k true) c.st.hasActive c.st.hasCanceling c.st.hasCanceled
+        c.st.hasPausing c.st.hasPaused c.st.hasStaged).2.1
+      (taskEventSummary ev (hasNext c k false) (hasNext c k true) c.st.hasActive c.st.hasCanceling c.st.hasCanceled
+        c.st.hasPausing c.st.hasPaused c.st.hasStaged).2.2 with
+  | raise e => exact Or.inl rfl
+  | ok s' =>
+    right
+    refine ⟨_, _, s', hw, rfl, ?_⟩
+    dsimp only
+    by_cases hchk : (s' != c.st.status && wfUnreachCheck s') = true
+    · rw [if_pos hchk]
+      simp only [Bool.and_eq_true] at hchk
+      split
+      · exact Or.inl rfl
+      · right
+        refine ⟨?_, ?_, hchk.2⟩
+        · exact (Rel.forEach (P := keepPre) _ (fun x => logError_keep _ _ _ _)).run _
+        · intro he
+          rw [he, Status.bne_self] at hchk
+          exact absurd hchk.1 (by decide)
+    · rw [if_neg hchk]
+      exact Or.inl rfl
+
+/-- **C02**: when a task report takes the workflow to `succeeded`, then at that moment no task is
+    active, nothing is staged ready, no task is pausing, paused, pending, canceling or canceled,
+    and the reporting task has no next task — for every state and every report -/
+theorem C02_success_door (k : TaskKey) (ev : Status) (c : Cond)
+    (h : (wfProcessTaskEvent k ev c).2.st.status = .succeeded) (hne : c.st.status ≠ .succeeded) :
+    c.st.hasActive = false ∧ c.st.hasStaged = false ∧ c.st.hasCanceling = false ∧ c.st.hasCanceled = false ∧
+    c.st.hasPausing = false ∧ c.st.hasPaused = false ∧ hasNext c k true = false := by
+  rcases wfProcessTaskEvent_status_cases k ev c with h0 | ⟨rem, oc, s', hw, hoc, hres⟩
+  · rw [h] at h0; exact absurd h0.symm hne
+  · have hs' : s' = .succeeded := by
+      rcases hres with h1 | ⟨h1, _, _⟩
+      · rw [h] at h1; exact h1.symm
+      · rw [h] at h1; cases h1
+    subst hs'
+    obtain ⟨hact, hcomp, _⟩ := tbl_succeeded_doors_task _ _ _ _ _ hw hne
+    rw [hcomp] at hoc
+    unfold taskEventSummary at hoc
+    dsimp only at hoc
+    refine ⟨hact, ?_⟩
+    revert hoc
+    cases c.st.hasCanceling <;> cases c.st.hasCanceled <;> cases c.st.hasPausing <;> cases c.st.hasPaused <;>
+      cases c.st.hasStaged <;> cases hasNext c k true <;> simp
+
+/-- **C02/C09/C10**: when a task report brings the workflow to rest `paused` or `canceled`, no task
+    is active at that moment -/
+theorem C02_dormant_door (k : TaskKey) (ev : Status) (c : Cond)
+    (h : (wfProcessTaskEvent k ev c).2.st.status = .paused ∨ (wfProcessTaskEvent k ev c).2.st.status = .canceled)
+    (hne : (wfProcessTaskEvent k ev c).2.st.status ≠ c.st.status) : c.st.hasActive = false := by
+  rcases wfProcessTaskEvent_status_cases k ev c with h0 | ⟨rem, oc, s', hw, _, hres⟩
+  · exact absurd h0 hne
+  · rcases hres with h1 | ⟨h1, _, _⟩
+    · rw [h1] at h hne
+      exact tbl_dormant_doors_task _ _ _ _ _ _ hw hne h
+    · rw [h1] at h
+      rcases h with h | h <;> cases h
+
 end Orq
